@@ -41,7 +41,39 @@ def run_shim(casetext, workdir):
 
 
 # ------------------------------------------------------------------ images
+def check_big_image(case):
+    """pixel words base + i*mul are produced inside the shim (a 64 MiB image does not fit a hex string); numpy decodes"""
+    import numpy as np
+    fmt, w, h, base, mul = case['fmt'], case['w'], case['h'], case['base'], case['mul']
+    magic, bpp, ranges, flip, line3 = FMT[fmt]
+    with tempfile.TemporaryDirectory(dir=OUT) as d:
+        out = os.path.join(d, 'img.out')
+        rc, err = run_shim('bigimage %s %d %d %s %d %d\n' % (fmt, w, h, out, base, mul), d)
+        if rc != 0:
+            raise Violation('shim exit status %d for big %s %dx%d: %s' % (rc, fmt, w, h, err[-1500:]))
+        data = open(out, 'rb').read()
+    header = magic + b'\n' + b'%d %d' % (w, h) + b'\n' + line3 + b'\n'
+    if not data.startswith(header):
+        raise Violation('%s %dx%d: header is %r, want %r' % (fmt, w, h, data[:len(header) + 4], header))
+    sel = sum(b - a for a, b in ranges)
+    nbytes = len(data) - len(header)
+    if nbytes != w * h * sel + 1 or data[-1:] != b'\n':
+        raise Violation('%s %dx%d (%d MiB of pixels): payload has %d bytes, want %d (+ trailing newline)' % (fmt, w, h, (w * h * bpp) >> 20, nbytes, w * h * sel))
+    words = ((base + np.arange(w * h * bpp // 4, dtype=np.uint64) * np.uint64(mul)) & np.uint64(0xFFFFFFFF)).astype('<u4')
+    px = words.view(np.uint8).reshape(h, w, bpp)
+    if flip:
+        px = px[::-1]
+    want = np.concatenate([px[:, :, a:b] for a, b in ranges], axis=2).reshape(-1)
+    got = np.frombuffer(data, dtype=np.uint8, count=w * h * sel, offset=len(header))
+    if not np.array_equal(want, got):
+        k = int(np.argmax(want != got))
+        raise Violation('%s %dx%d (%d MiB of pixels): decoded pixels differ from the input at payload byte %d (row %d)' % (fmt, w, h, (w * h * bpp) >> 20, k, k // (w * sel)))
+    return True, [fmt, 'big-image>=%dMiB' % (1 << ((w * h * bpp) >> 20).bit_length() - 1)]
+
+
 def check_image(case):
+    if case.get('kind') == 'big':
+        return check_big_image(case)
     fmt, w, h, pix = case['fmt'], case['w'], case['h'], bytes.fromhex(case['pixels'])
     magic, bpp, ranges, flip, line3 = FMT[fmt]
     assert len(pix) == w * h * bpp
@@ -82,7 +114,84 @@ def check_image(case):
 
 
 # ------------------------------------------------------------------ traces
+def compare_events(idx, got, recorded):
+    depth = 0
+    for k, (g, r) in enumerate(zip(got, recorded)):
+        kind = r[0]
+        ph = {'B': 'B', 'E': 'E', 'I': 'i', 'C': 'C'}[kind]
+        if g['ph'] != ph:
+            raise Violation('thread %d event %d: phase %r, recorded %r' % (idx, k, g['ph'], kind))
+        if kind in ('B', 'I'):
+            if g.get('name') != NAMES[r[1]] or g.get('cat') != (CATS[r[2]] if r[2] >= 0 else None):
+                raise Violation('thread %d event %d: name/cat %r/%r, recorded %r/%r' % (idx, k, g.get('name'), g.get('cat'), NAMES[r[1]], r[2]))
+        if kind == 'C':
+            if g.get('name') != NAMES[r[1]] or g.get('args', {}).get('value') != r[2]:
+                raise Violation('thread %d event %d: counter %r=%r, recorded %r=%r' % (idx, k, g.get('name'), g.get('args'), NAMES[r[1]], r[2]))
+        if kind == 'B':
+            depth += 1
+        if kind == 'E':
+            depth -= 1
+            if depth < 0:
+                raise Violation('thread %d: end event without begin in the log' % idx)
+            if g.get('name', '') != '':
+                raise Violation('end event carries a name')
+        if not isinstance(g.get('ts'), int):
+            raise Violation('event without integer timestamp')
+
+
+def steer_event(i, pat):
+    """event #i of a steering pattern - mirrors steerEvent() in C20_shim.cpp"""
+    pat %= 3
+    if pat == 0:
+        return ['C', 4, i]
+    if pat == 1:
+        r = i % 4
+        if r == 0:
+            return ['B', i % 12, i % 4]
+        if r == 1:
+            return ['C', (i // 4) % 12, i]
+        if r == 2:
+            return ['E']
+        return ['I', (i // 2) % 12, -1]
+    return ['I', i % 12, (i % 4) if i % 5 else -1]
+
+
+def check_steer(case):
+    """the shim grows one thread's log towards S bytes and saves it after every single event from S-window to S+window"""
+    S, window, pat = case['S'], case['window'], case['pat']
+    with tempfile.TemporaryDirectory(dir=OUT) as d:
+        prefix = os.path.join(d, 'steer')
+        rc, err = run_shim('tracesteer %s %d %d %d\n' % (prefix, S, window, pat), d)
+        if rc != 0:
+            raise Violation('shim exit status %d: %s' % (rc, err[-1500:]))
+        meta = [tuple(int(x) for x in l.split()) for l in open(prefix + '.meta')]
+        below = above = 0
+        for k, n, size in meta:
+            raw = open('%s.%d' % (prefix, k), 'rb').read()
+            if len(raw) != size:
+                raise Violation('steer: file size changed')
+            try:
+                log = json.loads(raw.decode())
+            except ValueError as e:
+                raise Violation('saveLog output of %d bytes (%d events, target size %d) is not well-formed JSON (%s): ...%r' % (size, n, S, e, raw[-40:]))
+            if not isinstance(log, list):
+                raise Violation('saveLog output is not a JSON array')
+            got = [e for e in log if e.get('ph') in ('B', 'E', 'i', 'C')
+                   and not (e.get('ph') == 'C' and e.get('name') == 'cpuUtilization' and e.get('cat') == 'builtin')]
+            if len(got) != n:
+                raise Violation('log of %d bytes: %d events in the log, %d recorded' % (size, len(got), n))
+            if len({e.get('tid') for e in got}) != 1:
+                raise Violation('events of one thread carry several tids')
+            compare_events(0, got, [steer_event(i, pat) for i in range(n)])
+            below += size <= S
+            above += size > S
+    labels = ['steer-size-2^%d' % (S.bit_length() - 1), 'steer-saves=%d' % len(meta)]
+    return below > 0 and above > 0, labels
+
+
 def check_trace(case):
+    if case.get('kind') == 'steer':
+        return check_steer(case)
     threads = case['threads']
     lines = ['trace %%OUT%% %d %d %d' % (case['pname'], 1 if case['main'] else 0, len(threads))]
     for t in threads:
@@ -130,28 +239,7 @@ def check_trace(case):
                and not (e.get('ph') == 'C' and e.get('name') == 'cpuUtilization' and e.get('cat') == 'builtin')]
         if len(got) != len(recorded):
             raise Violation('thread %d (%r): %d events in the log, %d recorded' % (idx, ident, len(got), len(recorded)))
-        depth = 0
-        for k, (g, r) in enumerate(zip(got, recorded)):
-            kind = r[0]
-            ph = {'B': 'B', 'E': 'E', 'I': 'i', 'C': 'C'}[kind]
-            if g['ph'] != ph:
-                raise Violation('thread %d event %d: phase %r, recorded %r' % (idx, k, g['ph'], kind))
-            if kind in ('B', 'I'):
-                if g.get('name') != NAMES[r[1]] or g.get('cat') != (CATS[r[2]] if r[2] >= 0 else None):
-                    raise Violation('thread %d event %d: name/cat %r/%r, recorded %r/%r' % (idx, k, g.get('name'), g.get('cat'), NAMES[r[1]], r[2]))
-            if kind == 'C':
-                if g.get('name') != NAMES[r[1]] or g.get('args', {}).get('value') != r[2]:
-                    raise Violation('thread %d event %d: counter %r=%r, recorded %r=%r' % (idx, k, g.get('name'), g.get('args'), NAMES[r[1]], r[2]))
-            if kind == 'B':
-                depth += 1
-            if kind == 'E':
-                depth -= 1
-                if depth < 0:
-                    raise Violation('thread %d: end event without begin in the log' % idx)
-                if g.get('name', '') != '':
-                    raise Violation('end event carries a name')
-            if not isinstance(g.get('ts'), int):
-                raise Violation('event without integer timestamp')
+        compare_events(idx, got, recorded)
         total_events += len(recorded)
     maxdepth = 0
     for t in threads:
@@ -188,8 +276,19 @@ def campaign(which):
                          # very wide rows (power-of-two boundaries: a writer that buffers or tiles a row changes path there)
                          st.tuples(st.sampled_from([2047, 2048, 2049, 4095, 4096, 4097, 5000, 8192, 8193]), st.integers(1, 2)))
 
+        thorough = os.environ.get('PBT_TIER') == 'thorough'
+        # images of 1..16 MiB (quick) and 64..256 MiB (thorough) whose sizes are powers of two or one row off: a writer that
+        # streams or tiles large images changes path there.  (fmt, w, h)
+        BIG = [('pf', 512, 512), ('pf4', 512, 512), ('pf', 2048, 2048), ('ppm', 1024, 1024), ('pf3', 1024, 1024), ('pf3a', 1024, 256), ('pgm', 2048, 512)]
+        if thorough:
+            BIG += [('pf', 4096, 4096), ('pf4', 2048, 2048), ('pf4', 1024, 8192), ('pf', 4096, 4097), ('pf', 4096, 4095), ('ppm', 4096, 4096), ('pf3', 4096, 2048),
+                    ('pf3a', 2048, 2048), ('pgm', 8192, 2048), ('pf', 8192, 8192), ('pf', 16384, 1024), ('pf4', 4096, 1024)]
+
         @st.composite
         def cases(draw):
+            if draw(st.integers(0, 99)) < (3 if not thorough else 1):
+                fmt, w, h = draw(st.sampled_from(BIG))
+                return dict(kind='big', fmt=fmt, w=w, h=h, base=draw(st.integers(0, 2 ** 32 - 1)), mul=draw(st.sampled_from([2654435761, 40503, 1, 0x01010101 + 2])))
             fmt = draw(st.sampled_from(sorted(FMT)))
             w, h = draw(dims)
             bpp = FMT[fmt][1]
@@ -232,8 +331,13 @@ def campaign(which):
                 evs += [['E']] * depth
             return evs
 
+        thorough = os.environ.get('PBT_TIER') == 'thorough'
+        STEER = [1 << 12, 1 << 14, 1 << 16, 1 << 18, 1 << 20] + ([1 << k for k in range(12, 24)] + [3 << 20, 5 << 20] if thorough else [])
+
         @st.composite
         def cases(draw):
+            if draw(st.integers(0, 99)) < 4:
+                return dict(kind='steer', S=draw(st.sampled_from(STEER)), window=draw(st.sampled_from([300, 1024])), pat=draw(st.integers(0, 2)))
             nthreads = draw(st.one_of(st.integers(0, 8), st.integers(0, 2)))
             names = draw(st.permutations(list(range(len(TNAMES)))))
             threads = []
